@@ -197,6 +197,9 @@ def build_cases(seed, quick=False):
 
 def partitions(case, quick, full_two_cut):
     n = len(case.data)
+    # streams added late (counterparty spellings, session-level failure): every single cut and chunking, a narrower
+    # two-cut window and no three-cuts in the quick tier
+    narrow = quick and case.name in ("logon_padded", "logon_rs_noop")
     yield ()
     for c in range(1, n):
         yield (c,)
@@ -207,7 +210,7 @@ def partitions(case, quick, full_two_cut):
         # two cuts: one anywhere, the other within +-8 bytes of a frame boundary
         near = set()
         for (s, e, *_r) in case.offs:
-            for d in (range(-5, 6) if quick else range(-8, 9)):
+            for d in (range(-3, 4) if narrow else (range(-5, 6) if quick else range(-8, 9))):
                 for p in ((s + d,) if quick else (s + d, e + d)):
                     if 0 < p < n:
                         near.add(p)
@@ -228,6 +231,8 @@ def partitions(case, quick, full_two_cut):
                 if 0 < p < n:
                     near.add(p)
     near = sorted(near)
+    if narrow:
+        return
     if len(near) <= (60 if not quick else 30):
         for t in itertools.combinations(near, 3):
             yield t
